@@ -224,7 +224,9 @@ var (
 		famString: {"x", "aa", ""}, famInt: {"5", "7", "0"}, famDec: {"2.5", "1"}, famEnum: {"e0", "e1"}, famBits: {"b0", "b0 b1"},
 		famLeafref: {"d"}, famIdref: {"id1"}, famInstID: {"/a"}, famUnion: {"5", "x"}, famBool: {"true"}, famBinary: {"AA=="},
 	}
-	posixPool = []string{"^a+$", "^[0-9]+$", "^(x|y)$"}
+	// (the texts of `patterns` are in the pool too: the two kinds of statement keep lists of their own,
+	// whatever the texts; see pat.go)
+	posixPool = []string{"^a+$", "^[0-9]+$", "^(x|y)$", "a*", "b+", "[0-9]+", "x"}
 )
 
 // restrictions writes the body of a type statement for family f; root says whether the
